@@ -7,8 +7,11 @@ os.makedirs(d, exist_ok=True)
 shutil.copy(src + "/patch.diff", d)
 for f in glob.glob(src + "/*_test.go"): shutil.copy(f, d + "/" + os.path.basename(f) + ".txt")
 if os.path.exists(src + "/notes.md"): shutil.copy(src + "/notes.md", d)
+for f in glob.glob(src + "/*.sh"): shutil.copy(f, d + "/" + os.path.basename(f) + ".txt")
+for f in glob.glob(src + "/*.frugal"): shutil.copy(f, d)
+if os.path.isdir(src + "/idl"): shutil.copytree(src + "/idl", d + "/idl", dirs_exist_ok=True)
 json.dump({"id": sid, "property": prop, "needs_to_manifest": needs, "caught_by": caught,
            "confirmed": "tools/seedcheck.py in a scratch worktree of /repo HEAD: patch applies, lib/go builds, existing lib/go tests pass with it, the demo test fails with it and passes without it; then ./verif check <prop> with VERIF_REPO=<worktree>",
-           "demo_files": [os.path.basename(f) + ".txt" for f in glob.glob(src + "/*_test.go")],
+           "demo_files": [os.path.basename(f) + ".txt" for f in glob.glob(src + "/*_test.go") + glob.glob(src + "/*.sh")],
            "origin": "independent sub-agent given only the property text and a scratch worktree"}, open(d + "/meta.json", "w"), indent=1)
 print("kept", d)
